@@ -317,3 +317,18 @@ def shuffled_mapping(mapping, seed):
     items = list(mapping.items())
     np.random.default_rng(int(seed) % (2**32)).shuffle(items)
     return dict(items)
+
+
+def nd_kw(**kw):
+    """keyword arguments with the documented defaults left out (k=1, inplace=False, reference_point=None), so that
+    the defaults themselves are exercised: `f.rotate90(a, b)` is one quarter turn returning a new object"""
+    out = {}
+    for key, v in kw.items():
+        if key == "k" and type(v) is int and v == 1:
+            continue
+        if key == "inplace" and v is False:
+            continue
+        if key == "reference_point" and v is None:
+            continue
+        out[key] = v
+    return out
